@@ -145,7 +145,13 @@ def run_cases(cases, sqlfile=None):
             def get_metadata(self, objectId):
                 contacted.append(objectId)
                 return super().get_metadata(objectId)
-        d = P.Daemon(host="127.0.0.1", interface=P.expose(LoggingDaemonObject))
+        ann_on = [False]
+
+        class AnnotatingDaemon(P.Daemon):
+            """for every other request the daemon puts an annotation of its own on its replies"""
+            def annotations(self):
+                return {"GATE": b"behind the gateway"} if ann_on[0] else {}
+        d = AnnotatingDaemon(host="127.0.0.1", interface=P.expose(LoggingDaemonObject))
         ns = nameserver.NameServer(nameserver.SqlStorage(sqlfile)) if sqlfile else nameserver.NameServer()
         d.register(ns, "Pyro.NameServer")
         uri_by_tag, current = {}, {}
@@ -195,8 +201,15 @@ def run_cases(cases, sqlfile=None):
 
                 def start_response(status, headers, exc_info=None):
                     got["status"] = status
+                ann_on[0] = i % 2 == 1
                 try:
-                    body = b"".join(G.pyro_app(env, start_response))
+                    chunks = list(G.pyro_app(env, start_response))
+                    if any(type(chunk) is not bytes for chunk in chunks):
+                        # a WSGI server writes byte strings and nothing else (wsgiref: "write() argument must be a bytes instance"):
+                        # its own error page goes out in place of the answer
+                        got["status"] = "500 Internal Server Error"
+                        chunks = [b"A server error occurred.  Please contact the administrator."]
+                    body = b"".join(chunks)
                     if r["member"] == "method_slow":
                         sc.sleep(12.0)      # whatever the gateway sent has been served by now
                     sc.quiesce()
